@@ -226,6 +226,13 @@ def gen_map(rng, scaffolds, bpt, edits=None, tagging=True, rich_tags=False):
                 g["pieces"].reverse()
                 for p in g["pieces"]:
                     p[3] = -p[3]
+            elif e < 0.58 and len(groups) > 1:
+                # a short piece (less than a FASTA line) goes between two pieces of one scaffold
+                shorts = [x for x in groups if len(x["pieces"]) == 1 and x["pieces"][0][2] - x["pieces"][0][1] < 60]
+                hosts = [x for x in groups if len(x["pieces"]) > 1 and x not in shorts]
+                if shorts and hosts:
+                    src, dst = rng.choice(shorts), rng.choice(hosts)
+                    dst["pieces"].insert(rng.randint(1, len(dst["pieces"]) - 1), src["pieces"].pop())
             elif e < 0.8 and len(groups) > 1:
                 # move a piece to another group
                 src = rng.choice([x for x in groups if x["pieces"]])
@@ -365,6 +372,36 @@ def render_pretext_agp(m, gap=100):
 # ---------------------------------------------------------------------------
 
 
+def splice_short_scaffold(rng, m, scaffolds, bpt):
+    """A curation that is common in practice: a scaffold is broken in two and a
+    small one (shorter than a FASTA line) is placed into the break."""
+    groups = m["groups"]
+    shorts = [g for g in groups if len(g["pieces"]) == 1 and g["pieces"][0][2] - g["pieces"][0][1] + 1 < 60
+              and g["pieces"][0][1] == 1]
+    if not shorts:
+        return
+    sg = rng.choice(shorts)
+    hosts = [g for g in groups if g is not sg and g["pieces"]]
+    if not hosts:
+        return
+    host = rng.choice(hosts)
+    if len(host["pieces"]) < 2:
+        pc = host["pieces"][0]
+        ntex = int((pc[2] - pc[1] + 1) // bpt)
+        if ntex < 4:
+            return
+        cut = pc[1] - 1 + int(round(rng.randint(2, ntex - 2) * bpt))
+        second = [pc[0], cut + 1, pc[2], pc[3], list(pc[4])]
+        pc[2] = cut
+        host["pieces"].insert(1, second)
+        if pc[3] == -1:
+            host["pieces"][0], host["pieces"][1] = host["pieces"][1], host["pieces"][0]
+    piece = sg["pieces"].pop()
+    piece[4][:] = list(host["pieces"][0][4])
+    host["pieces"].insert(rng.randint(1, len(host["pieces"]) - 1), piece)
+    m["groups"] = [g for g in groups if g["pieces"]]
+
+
 def gen_workload(rng, fasta_backed=True, tagging=True, haps=None, rich_tags=False):
     """{"bpt", "scaffolds", "map", "fasta" (if FASTA-backed), "tpf", "agp", "pretext_agp"} or None"""
     bpt = rng.choice([8.0, 10.0, 16.5, 23.116333, 40.0, 64.25])
@@ -382,6 +419,8 @@ def gen_workload(rng, fasta_backed=True, tagging=True, haps=None, rich_tags=Fals
     m = gen_map(rng, scaffolds, bpt, tagging=tagging and not haps, rich_tags=rich_tags and not haps)
     if m is None:
         return None
+    if not haps and rng.random() < 0.25:
+        splice_short_scaffold(rng, m, scaffolds, bpt)
     if haps:
         tag_haplotypes(rng, m)
     w = {
